@@ -7,6 +7,7 @@ COV=/tmp/rrss_cov
 rm -rf $COV; mkdir -p $COV/prof
 BIN=$(ls -d /root/.rustup/toolchains/nightly-x86_64-unknown-linux-gnu/lib/rustlib/x86_64-unknown-linux-gnu/bin)
 cp /repo/Cargo.lock /verif/harness/Cargo.lock
+export LLVM_PROFILE_FILE="$COV/prof/build-%p-%m.profraw"
 (cd /verif/harness && CARGO_NET_OFFLINE=true RUSTFLAGS="--cfg rrss_verif -C instrument-coverage" \
    cargo +nightly build --offline --target-dir $COV/target 2>&1 | tail -3)
 export LLVM_PROFILE_FILE="$COV/prof/%p-%m.profraw"
